@@ -31,6 +31,19 @@ pub assume_specification<T, A: core::alloc::Allocator>[ Vec::<T, A>::capacity ](
 pub broadcast axiom fn ax_slice_ext(a: &[u8], b: &[u8])
     ensures (a == b) == (#[trigger] a@ == #[trigger] b@);
 
+/// R23 SHIM for `slice.chunks(n)` (not used by the code as it is): pieces of at most n bytes whose concatenation is the slice
+pub open spec fn concat_chunks(c: Seq<&[u8]>) -> Seq<u8> decreases c.len() { if c.len() == 0 { Seq::empty() } else { concat_chunks(c.drop_last()) + c.last()@ } }
+pub trait VChunks: vstd::view::View<V = Seq<u8>> {
+    fn vchunks(&self, n: usize) -> (r: Vec<&[u8]>)
+        requires n > 0,
+        ensures concat_chunks(r@) == self@, forall|i: int| 0 <= i < r@.len() ==> 0 < (#[trigger] r@[i])@.len() <= n,
+            self@.len() > n ==> r@.len() >= 2;
+}
+impl VChunks for [u8] {
+    #[verifier::external_body]
+    fn vchunks(&self, n: usize) -> (r: Vec<&[u8]>)
+    { self.chunks(n).collect() }
+}
 pub mod util {
     use super::*;
     //@ item src/util.rs enum ErrorCode
@@ -106,6 +119,7 @@ pub mod state {
     //@ span src/writers/file_log_writer/state.rs fn start_async_fs_writer
     //@   block Ok(mut message) =>
     //@   rename async_dispatch
+    //@   rule R23 *
             return false;
         }
         true
